@@ -1034,9 +1034,46 @@ class C01(Prop):
                 yield c
             else:
                 yield self.gen_extra(rng, tier)
+        for c in self.pattern_sweep(tier):
+            yield c
         if tier == "thorough":
             for c in self.exhaustive_small():
                 yield c
+
+    def pattern_sweep(self, tier):
+        """every combination of index KINDS (full slice, scalar, list, mask, empty list) over the dimensions of a fixed 3-d
+        array (all 125) and of a fixed 4-d array (all 625): orthogonal
+        indexing must not depend on which kinds meet in one tuple or where they stand"""
+        import itertools
+        def arr(rank):
+            sizes = [2, 3, 2, 3][:rank]
+            names = ["x", "y", "z", "w"][:rank]
+            kinds = ["i", "O", "f", "i"][:rank]
+            pools = {"i": [5, 3, 8], "O": ["c", "a", "b"], "f": [Fraction(1, 2), Fraction(7, 2), Fraction(3, 2)]}
+            return {"axes": [{"name": nm, "kind": k, "labels": [gen.enc(v) for v in pools[k][:n]]} for nm, k, n in zip(names, kinds, sizes)],
+                    "vkind": "f"}
+        from fractions import Fraction
+        count = 0
+        for rank in (3, 4):
+            a = arr(rank)
+            for pat in itertools.product(["full", "scalar", "list", "mask", "empty"], repeat=rank):
+                count += 1
+                ixs = []
+                for d, kind in enumerate(pat):
+                    L = a["axes"][d]["labels"]
+                    if kind == "full":
+                        ixs.append(["sl", None, None, None])
+                    elif kind == "scalar":
+                        ixs.append(["sc", L[-1]])
+                    elif kind == "list":
+                        ixs.append(["li", [L[-1], L[0]]])
+                    elif kind == "mask":
+                        ixs.append(["ma", [i != 0 for i in range(len(L))]])
+                    else:
+                        ixs.append(["li", []])
+                yield {"op": "take", "array": a, "option": "label", "spelling": ["getitem", "loc", "take"][count % 3], "mode": "label",
+                       "as_array": bool(count % 2), "index": {"form": "tuple", "ix": ixs}, "bare": True,
+                       "_ixkinds": list(pat), "_src": "patterns"}
 
     def exhaustive_small(self):
         """rank <= 2, sizes <= 3, all label orders (as permutations of a fixed label set), all
